@@ -661,6 +661,21 @@ impl Generator {
                     t.faults.push(f);
                 }
             }
+        } else if (info.has("CFF ") || info.has("CFF2")) && rng.pct(4) {
+            // compound crafted fault: subroutine fan-out (INDEX rewrite + calling glyph program)
+            let tag = if info.has("CFF ") { "CFF " } else { "CFF2" };
+            if let Some(data) = info.disk.tables.get(&crate::trace::tag_from_str(tag)) {
+                if let Some(fields) = fields::cff_subr_bomb(tag, data, rng) {
+                    for f in fields {
+                        t.faults.push(Fault::Write {
+                            target: tag.to_string(),
+                            off: f.off,
+                            bytes: f.bytes.unwrap_or_default(),
+                            field: f.name,
+                        });
+                    }
+                }
+            }
         } else {
             let targets = pick_targets(rng, info, None);
             for _ in 0..nfaults {
